@@ -108,3 +108,21 @@ Fixpoint inline_loop_maxdepth (fuel : nat) (look : Z -> option inlinee) (max_dep
            end
   end.
 Definition max_depth_of (recs : list inlinee) : Z := fold_left (fun a r => Z.max a (i_depth r)) recs 0.
+
+(* ------------------------------------------------------------------ walk_stack over an arbitrary caller function *)
+(* the loop of minidump-unwind/src/lib.rs walk_stack (756-830) with get_caller_frame abstracted: the context frame,
+   then callers while get_caller_frame returns Some.  For PPC / PPC64 / SPARC / unknown contexts the dispatch
+   (lib.rs 666-679) is the `_ => None` arm. *)
+Fixpoint walk_any {F} (fuel : nat) (get_caller : F -> option F) (cur : F) : outcome (list F) :=
+  match fuel with
+  | O => OutOfFuel
+  | S f => match get_caller cur with
+           | None => Ret [cur]
+           | Some c => do r <- walk_any f get_caller c; Ret (cur :: r)
+           end
+  end.
+Inductive cpu_kind := CpuX86 | CpuAmd64 | CpuArm | CpuArm64 | CpuArm64Old | CpuMips | CpuPpc | CpuPpc64 | CpuSparc | CpuUnknown.
+Definition has_unwinder (c : cpu_kind) : bool :=
+  match c with CpuPpc | CpuPpc64 | CpuSparc | CpuUnknown => false | _ => true end.
+Definition get_caller_dispatch {F} (c : cpu_kind) (arch_walker : F -> option F) : F -> option F :=
+  if has_unwinder c then arch_walker else fun _ => None.
